@@ -9,6 +9,22 @@ import (
 
 const Svc = "ssh-connection"
 
+// U0 is the default user; Users are names that differ from it and from each other only by case
+// folding, Unicode confusables, normalisation form or blanks (plus the empty name): the server must
+// treat every one of them as a different user (byte comparison).
+const U0 = "alice"
+
+var Users = []string{"alice", "Alice", "ALICE", "al\u0131ce", "alice ", "k", "\u212a", "K", "\u00e9", "e\u0301", ""}
+
+// OtherUser picks a pool name different from u (a confusable of it where the pool has one).
+func OtherUser(r *hx.Rand, u string) string {
+	for {
+		if v := hx.Pick(r, Users); v != u {
+			return v
+		}
+	}
+}
+
 // ---- request letters
 
 func None(u string) Req     { return Req{T: "r", User: u, Service: Svc, Method: "none"} }
@@ -137,15 +153,15 @@ func RandGss(r *hx.Rand, g *hx.Gen, u string) Req {
 
 // Letters is the base alphabet of the bounded-exhaustive enumeration (14 letters).
 func Letters() []Req {
-	wrongSess := Sign("a", 1)
+	wrongSess := Sign(U0, 1)
 	wrongSess.SigData = "sess"
-	wrongKey := Sign("a", 1)
+	wrongKey := Sign(U0, 1)
 	wrongKey.SigKey = 2
 	return []Req{
-		None("a"), Pw("a", "pw1"), Kbd("a"),
-		Query("a", 1), Sign("a", 1), wrongSess, Query("a", 2), Sign("a", 2),
-		Sign("b", 1), Pw("b", "pw2"), Sign("a", 4), Other("a", "hostbased"),
-		Sign("a", 5), wrongKey,
+		None(U0), Pw(U0, "pw1"), Kbd(U0),
+		Query(U0, 1), Sign(U0, 1), wrongSess, Query(U0, 2), Sign(U0, 2),
+		Sign("Alice", 1), Pw("Alice", "pw2"), Sign(U0, 4), Other(U0, "hostbased"),
+		Sign(U0, 5), wrongKey,
 	}
 }
 
@@ -156,9 +172,10 @@ var allAlgos = []string{"ssh-ed25519", "ecdsa-sha2-nistp256", "rsa-sha2-256", "r
 // RandReq draws from the extended alphabet: the base letters plus algorithm/format mismatches,
 // malformed payloads, signatures over the wrong data, keys that do not parse, other services, read errors.
 func RandReq(r *hx.Rand, g *hx.Gen) Req {
-	u := "a"
+	u := U0
 	if r.Chance(1, 8) {
-		u = "b"
+		u = OtherUser(r, U0)
+		g.Stat("req.other-user")
 	}
 	switch r.Intn(20) {
 	case 0:
